@@ -52,6 +52,7 @@ struct Shared {
     bash_words: AtomicU64,
     bash_scripts: AtomicU64,
     split_ok: AtomicU64,
+    path_quotes: AtomicU64,
     violations: Mutex<Vec<(String, Vec<Vec<u8>>, String)>>,
     sig_counts: Mutex<BTreeMap<String, u64>>,
 }
@@ -278,6 +279,7 @@ fn main() {
         bash_words: AtomicU64::new(0),
         bash_scripts: AtomicU64::new(0),
         split_ok: AtomicU64::new(0),
+        path_quotes: AtomicU64::new(0),
         violations: Mutex::new(vec![]),
         sig_counts: Mutex::new(BTreeMap::new()),
     };
@@ -300,6 +302,25 @@ fn main() {
                     }
                     let line = check_split(&sh, xs);
                     batch.push((xs.clone(), line));
+                    if xs.len() == 1 {
+                        // the same string as a path: Path::quote is what the dry-run scripts print
+                        let p = fclones::Path::from(os(&xs[0]));
+                        let expected = p.to_path_buf().into_os_string().into_vec();
+                        if !expected.is_empty() {
+                            let pl = p.quote();
+                            sh.path_quotes.fetch_add(1, Ordering::Relaxed);
+                            match catch_unwind(AssertUnwindSafe(|| split(&pl))) {
+                                Ok(Ok(words)) if words.len() == 1 && words[0].as_os_str().as_bytes() == &expected[..] => {}
+                                other => sh.report(
+                                    &format!("C17:path-quote-split-mismatch:{}", classify(xs, &pl)),
+                                    xs,
+                                    format!("split(Path::quote) of {} -> {} gave {:?}", json_bytes(&expected), json_str(&pl),
+                                            other.map(|r| r.map(|w| w.len()).map_err(|e| e.to_string())).map_err(|_| "panic")),
+                                ),
+                            }
+                            batch.push((vec![expected], pl));
+                        }
+                    }
                 }
                 check_bash(&sh, &batch);
             });
@@ -310,7 +331,7 @@ fn main() {
     let sc = sh.sig_counts.lock().unwrap();
     let mut out = String::from("{");
     out.push_str(&format!(
-        "\"alphabet\":{},\"max_len\":{},\"single_strings\":{},\"exhaustive_items\":{},\"random_items\":{},\"strings\":{},\"lists\":{},\"bash_words\":{},\"bash_scripts\":{},\"split_ok\":{},",
+        "\"alphabet\":{},\"max_len\":{},\"single_strings\":{},\"exhaustive_items\":{},\"random_items\":{},\"strings\":{},\"lists\":{},\"bash_words\":{},\"bash_scripts\":{},\"split_ok\":{},\"path_quotes\":{},",
         n,
         max_len,
         n_single,
@@ -320,7 +341,8 @@ fn main() {
         sh.lists.load(Ordering::Relaxed),
         sh.bash_words.load(Ordering::Relaxed),
         sh.bash_scripts.load(Ordering::Relaxed),
-        sh.split_ok.load(Ordering::Relaxed)
+        sh.split_ok.load(Ordering::Relaxed),
+        sh.path_quotes.load(Ordering::Relaxed)
     ));
     let samples: Vec<String> = (0..5)
         .map(|_| {
